@@ -10,7 +10,13 @@ import (
 	"verif/harness/ref"
 )
 
-var c08DocsText = []string{`null`, `5`, `[1,"a",null]`, `{"a":1,"b":"s","xs":[1,2,3],"o":{"a":null}}`, `{"a":"str","b":[],"xs":["b","a"],"n":0,"big":1e6144}`, `"text"`, `[]`, `{"a":{"a":{"a":1}},"b":[{"a":1},{"a":2}],"xs":[3,1,2]}`}
+var c08DocsText = []string{`null`, `5`, `[1,"a",null]`, `{"a":1,"b":"s","xs":[1,2,3],"o":{"a":null}}`, `{"a":"str","b":[],"xs":["b","a"],"n":0,"big":1e6144}`, `"text"`, `[]`, `{"a":{"a":{"a":1}},"b":[{"a":1},{"a":2}],"xs":[3,1,2]}`,
+	// records whose member k is null at the first / a middle / the last position: faults that
+	// depend on the element (k || <fault>) are raised at that position of a per-element loop
+	`{"rs":[{"k":null,"s":null},{"k":1,"s":"a"},{"k":2,"s":"b"}]}`,
+	`{"rs":[{"k":1,"s":"a"},{"k":null,"s":null},{"k":2,"s":"b"}]}`,
+	`{"rs":[{"k":3,"s":"c"},{"k":1,"s":"a"},{"k":2,"s":"b"},{"k":null,"s":null}]}`,
+	`{"rs":[{"k":3,"s":"c"},{"k":true,"s":1},{"k":2,"s":"b"}]}`}
 var c08Docs []ref.V
 var c08Go []any
 
@@ -237,6 +243,21 @@ func c08Build() {
 	for _, s := range []string{"`1` / `0`", "n / n", "`1` // `0`", "`1` % `0`", "`0` / `0`", "`1` ÷ `0`", "big * big", "big * `10000000000000000000000000000000000000000000000000000000000000000000000000000000`", "big + big * big", "`-1` / `0`", "xs[*].[@ / `0`]", "xs[?@ / `0`]", "[`1` / `0`]", "avg(`[1]`) / `0`", "sum(xs) / n", "let $z = `0` in `1` / $z", "map(&(@ / `0`), xs)", "abs(`1` / `0`)"} {
 		add("not-a-number", s)
 	}
+	// a fault raised at a later element of a per-element loop (positions come from the documents)
+	for _, f := range []struct{ fam, num, str string }{
+		{"undefined-variable", "(k || $missing)", "(s || $missing)"},
+		{"invalid-type", "(k || abs('a'))", "(s || abs('a'))"},
+		{"invalid-value", "(k || pad_left('a', `-1`))", "(s || pad_left('a', `-1`))"},
+		{"not-a-number", "(k || `1` / `0`)", "(s || `1` / `0`)"},
+		{"key-type", "k", "s"},
+	} {
+		for _, t := range []string{"sort_by(rs, &%s)", "max_by(rs, &%s)", "min_by(rs, &%s)", "map(&%s, rs)", "rs[*].%s", "rs[?%s]", "rs[].[%s]", "rs[*].{x: %s}", "rs[1:].%s", "rs[?k].%s", "sort_by(rs, &%s)[*].k", "rs | sort_by(@, &%s)", "let $z = `1` in max_by(rs, &%s)"} {
+			add(f.fam+"-at-element", fmt.Sprintf(t, f.num))
+			add(f.fam+"-at-element", fmt.Sprintf(t, f.str))
+		}
+		add(f.fam+"-at-element", fmt.Sprintf("group_by(rs, &%s)", f.str))
+		add(f.fam+"-at-element", fmt.Sprintf("group_by(rs, &to_string(%s))", f.num))
+	}
 	// two-fault combinations: one of the categories present must be reported
 	for _, s := range []string{"[foo(a), abs()]", "{x: $v, y: abs('a')}", "[abs('a'), `1` / `0`]", "abs('a') + $v", "[xs[::0], $v]", "sort_by(xs, a) || foo(1)", "[pad_left('a', `-1`), length(`1`)]", "let $a = $x, $b = abs('a') in $a", "[$a, $b] | foo(@)", "merge(`1`, $v)", "abs(length(`1`), `2`)", "foo(abs())"} {
 		add("two-faults", s)
@@ -305,7 +326,7 @@ func c08History(c *Ctx, idx int) {
 func init() {
 	Register(&Property{
 		ID:            "C08",
-		Rule:          "failing texts generated per category and site - every builtin with every wrong argument count (also nested and in never-evaluated branches), unknown names incl. near misses, expression references in value position and values in expression-reference position for every function and position, a wrong JSON type at every argument position, every invalid-value site (slice step 0, negative/non-integral counts and widths, pad strings, from_items shapes), undefined variables at top level/projections/filters/expression references/let bodies, division by zero and overflow per operator, two-fault combinations, syntax faults, plus seeded mutated expressions, plus call histories (a valid text searched first, then the same text decorated with runes that trimming removes but the grammar rejects) - each run through Compile and through Search and Expression.Search on 9 documents (null, scalar, arrays, objects, fault-triggering, foreign Go values); checks per call: nil result with an error, exactly one exported category under errors.Is, non-empty text, category = the model's (single fault) or within the model's fault set (several), Compile and Search report the same static fault for every document, a compiled Expression never reports syntax/arity/unknown-function; non-trivial = the model expects an error on at least one document; distinct by text",
+		Rule:          "failing texts generated per category and site - every builtin with every wrong argument count (also nested and in never-evaluated branches), unknown names incl. near misses, expression references in value position and values in expression-reference position for every function and position, a wrong JSON type at every argument position, every invalid-value site (slice step 0, negative/non-integral counts and widths, pad strings, from_items shapes), undefined variables at top level/projections/filters/expression references/let bodies, every dynamic fault category raised at the first / a middle / the last element of each per-element construct (sort_by, max_by, min_by, group_by, map, projections, filters, multi-selects), division by zero and overflow per operator, two-fault combinations, syntax faults, plus seeded mutated expressions, plus call histories (a valid text searched first, then the same text decorated with runes that trimming removes but the grammar rejects) - each run through Compile and through Search and Expression.Search on 13 documents (null, scalar, arrays, objects, fault-triggering, foreign Go values); checks per call: nil result with an error, exactly one exported category under errors.Is, non-empty text, category = the model's (single fault) or within the model's fault set (several), Compile and Search report the same static fault for every document, a compiled Expression never reports syntax/arity/unknown-function; non-trivial = the model expects an error on at least one document; distinct by text",
 		MinNontrivial: 500,
 		Streams: []Stream{
 			{Name: "sites", Setup: c08Setup, N: c08N, Run: c08Run, Exhaustive: true},
